@@ -20,7 +20,7 @@ Inductive ev :=
 | EHealth (i n res dl dur : Z)
 | EHealthRet (i n : Z)
 | EApi (i call a b c d gid : Z)
-| EApiRet (i call res err : Z)
+| EApiRet (i call res err gid : Z)
 | EStatus (i state il lid tok rev pl plid ptok : Z)
 | EQuiet
 | EEnd
@@ -38,7 +38,7 @@ Inductive ev :=
 | ETvFail (i : Z)
 | ECrash (i : Z)
 | EHarnessPanic
-| EEnvMark (code : Z)
+| EEnvMark (code i : Z)
 | EOther (code : Z).
 
 (* kind numbers: the order of this list is the contract with oracle/sim_cmds.ml *)
@@ -65,7 +65,7 @@ Definition decode (k : Z) (a : list Z) : ev :=
   | 12, [i; n; r; dl; dur] => EHealth i n r dl dur
   | 13, [i; n] => EHealthRet i n
   | 14, [i; call; a; b; c; d; gid] => EApi i call a b c d gid
-  | 15, [i; call; res; err] => EApiRet i call res err
+  | 15, [i; call; res; err; gid] => EApiRet i call res err gid
   | 16, [i; st; il; lid; tok; rev; pl; plid; ptok] => EStatus i st il lid tok rev pl plid ptok
   | 17, [] => EQuiet
   | 18, [] => EEnd
@@ -83,7 +83,7 @@ Definition decode (k : Z) (a : list Z) : ev :=
   | 30, [i] => ETvFail i
   | 31, [i] => ECrash i
   | 32, _ => EHarnessPanic
-  | 33, [c] => EEnvMark c
+  | 33, [c; i] => EEnvMark c i
   | _, _ => EOther k
   end.
 
